@@ -86,6 +86,10 @@ sslKeys_t *load_keys(const KeySpec &ks, int *rc_out) {
                                   cas.empty() ? nullptr : cas.data(), (int32) cas.size(), nullptr);
         if (rc < 0) { if (rc_out) { *rc_out = rc; } matrixSslDeleteKeys(keys); return nullptr; }
     }
+    if (ks.ocsp) {
+        const unsigned char *ob; size_t on;
+        if (vsim_ocsp_blob(ks.ocsp - 1, &ob, &on)) { rc = matrixSslLoadOCSPResponse(keys, ob, (psSize_t) on); if (rc < 0) { if (rc_out) { *rc_out = rc; } matrixSslDeleteKeys(keys); return nullptr; } }
+    }
     if (ks.psk) {
         for (int i = 0; i < vsim_psk_count(); i++) {
             const unsigned char *pid, *pkey; int pidLen, pkeyLen;
@@ -239,6 +243,7 @@ int MxEndpoint::create(const EpCfg &c, const sslKeys_t *keys) {
     if (cfg.ems < 0) { opt.extendedMasterSecret = -1; }
     if (cfg.ems > 0) { opt.extendedMasterSecret = 1; }
     if (cfg.ticket_resumption) { opt.ticketResumption = 1; }
+    if (cfg.ocsp_stapling && !cfg.server) { opt.OCSPstapling = 1; }
     if (cfg.fallback_scsv) { opt.fallbackScsv = 1; }
     if (cfg.max_frag > 0 && !cfg.server) { opt.maxFragLen = cfg.max_frag; }
     if (cfg.max_early_data > 0) { opt.tls13SessionMaxEarlyData = (psSize_t) cfg.max_early_data; }
